@@ -10,6 +10,9 @@
 (*   Enc(f)       - the exact bytes of the frame on the wire, every length  *)
 (*                  field and checksum (IPv4 header, TCP/UDP with pseudo    *)
 (*                  header, ICMP; RFC 1071) computed here, in TLA+.         *)
+(* Frames may carry IPv4 header options (IHL 6..15) and TCP options (data     *)
+(* offset 6..10): the rewrites leave them alone, every length and checksum   *)
+(* is computed with them present.                                            *)
 (* Enc is the byte oracle of the check: TLC evaluates it for every frame    *)
 (* record that occurs in an exported behaviour (EncTable.tla) and for every *)
 (* frame observed in a recorded trace (TraceDatapath.tla).                  *)
@@ -38,6 +41,18 @@ Pay  == [p0   |-> <<>>,
          pt1  |-> <<3, 232, 7, 208, 1, 2, 3, 4, 5, 6, 7, 8, 80, 16, 3, 232, 171, 205, 0, 0>>
                   \o [i \in 1..12 |-> 64 + i]]                                          \* TCP 1000>2000
 
+\* IPv4 header options (a multiple of 4 octets; IHL = 5 + Len \div 4)
+IpOpt == [ra  |-> <<148, 4, 0, 0>>,                                       \* Router Alert (RFC 2113): IHL 6
+          nop |-> <<1, 1, 1, 1, 148, 4, 0, 0>>,                           \* NOP padding + Router Alert: IHL 7
+          ts  |-> <<68, 12, 13, 0, 1, 2, 3, 4, 5, 6, 7, 8>>,              \* Timestamp, two slots used: IHL 8
+          rr  |-> <<7, 39, 4>> \o [i \in 1..36 |-> 200 + (i % 50)] \o <<0>>] \* Record Route, full: IHL 15
+\* TCP header options (a multiple of 4 octets; data offset = 5 + Len \div 4)
+TcpOpt == [mss |-> <<2, 4, 5, 180>>,                                                    \* MSS 1460: offset 6
+           eol |-> <<2, 4, 5, 180, 1, 0, 0, 0>>,                                        \* MSS, NOP, EOL, padding: 7
+           big |-> <<2, 4, 5, 180, 4, 2, 8, 10, 0, 1, 2, 3, 255, 254, 253, 252, 1, 3, 3, 7>>] \* MSS SACKOK TS NOP WS: 10
+OptLen(tab, o) == IF o = "-" THEN 0 ELSE Len(tab[o])
+OptBytes(tab, o) == IF o = "-" THEN <<>> ELSE tab[o]
+
 MacSyms == DOMAIN MacB
 IpSyms  == DOMAIN IpB
 PaySyms == DOMAIN Pay
@@ -51,13 +66,16 @@ PaySyms == DOMAIN Pay
 \*         opaque (the payload symbol): OpenFlow 1.0 gives fragments no transport
 \*         ports (section 3.4), and the transport length / checksum of a first
 \*         fragment describe the whole datagram, not this frame.
+\* iopt  : IPv4 header options (symbol of IpOpt, "-" = none: IHL 5)
+\* topt  : TCP header options (symbol of TcpOpt, "-" = none: data offset 5)
 \* Fields that do not exist in a frame have fixed values (canonical records):
-\* untagged => vid = pcp = cfi = 0; not IPv4 => tos = 0, nsrc = ndst = proto = "-",
-\* frag = 0; no TCP/UDP header => tsrc = tdst = 0.
+\* untagged => vid = pcp = cfi = 0; not IPv4 => tos = 0, nsrc = ndst = proto = iopt = "-",
+\* frag = 0; no TCP/UDP header => tsrc = tdst = 0; no (parsed) TCP header => topt = "-".
 Mk(dst, src, tag, vid, pcp, cfi, et, tos, nsrc, ndst, proto, frag, tsrc, tdst, pl) ==
   [dst |-> dst, src |-> src, tag |-> tag, vid |-> vid, pcp |-> pcp, cfi |-> cfi,
    et |-> et, tos |-> tos, nsrc |-> nsrc, ndst |-> ndst, proto |-> proto,
-   frag |-> frag, tsrc |-> tsrc, tdst |-> tdst, pl |-> pl]
+   frag |-> frag, tsrc |-> tsrc, tdst |-> tdst, pl |-> pl, iopt |-> "-", topt |-> "-"]
+WithOpts(f, io, to) == [f EXCEPT !.iopt = io, !.topt = to]
 
 HasL4Ports(f) == f.et = "ip" /\ f.proto \in {"tcp", "udp"} /\ f.frag = 0
 
@@ -70,7 +88,9 @@ FrameOK(f) ==
   /\ IF f.et = "ip"
      THEN /\ f.tos \in 0..255 /\ f.nsrc \in IpSyms /\ f.ndst \in IpSyms
           /\ f.proto \in {"tcp", "udp", "icmp", "x"} /\ f.frag \in 0..2
-     ELSE f.tos = 0 /\ f.nsrc = "-" /\ f.ndst = "-" /\ f.proto = "-" /\ f.frag = 0
+          /\ f.iopt \in DOMAIN IpOpt \cup {"-"}
+     ELSE f.tos = 0 /\ f.nsrc = "-" /\ f.ndst = "-" /\ f.proto = "-" /\ f.frag = 0 /\ f.iopt = "-"
+  /\ IF f.et = "ip" /\ f.proto = "tcp" /\ f.frag = 0 THEN f.topt \in DOMAIN TcpOpt \cup {"-"} ELSE f.topt = "-"
   /\ f.tsrc \in 0..65535 /\ f.tdst \in 0..65535
   /\ (~HasL4Ports(f) => f.tsrc = 0 /\ f.tdst = 0)
 
@@ -107,11 +127,12 @@ Apply(a, f) ==
 \* ---- lengths ---------------------------------------------------------------
 PLen(f) == Len(Pay[f.pl])
 L4Len(f) == IF f.frag # 0 THEN PLen(f)
-            ELSE CASE f.proto = "tcp"  -> 20 + PLen(f)
+            ELSE CASE f.proto = "tcp"  -> 20 + OptLen(TcpOpt, f.topt) + PLen(f)
                    [] f.proto = "udp"  -> 8 + PLen(f)
                    [] f.proto = "icmp" -> 8 + PLen(f)
                    [] OTHER            -> PLen(f)
-L3Len(f) == CASE f.et = "ip"   -> 20 + L4Len(f)
+IpHdrLen(f) == 20 + OptLen(IpOpt, f.iopt)
+L3Len(f) == CASE f.et = "ip"   -> IpHdrLen(f) + L4Len(f)
               [] f.et = "arp"  -> 28
               [] f.et = "bpdu" -> 38
               [] OTHER         -> PLen(f)
@@ -140,9 +161,10 @@ Pseudo(f, l4len) == IpB[f.nsrc] \o IpB[f.ndst] \o <<0, ProtoNum(f)>> \o U16(l4le
 
 TcpBytes(f) ==
   LET pl == Pay[f.pl]
-      h1 == U16(f.tsrc) \o U16(f.tdst) \o <<1, 2, 3, 4, 5, 6, 7, 8, 80, 24>> \o U16(1000)
-      c  == Csum(Pseudo(f, 20 + Len(pl)) \o h1 \o <<0, 0, 0, 0>> \o pl)
-  IN h1 \o U16(c) \o <<0, 0>> \o pl
+      op == OptBytes(TcpOpt, f.topt)
+      h1 == U16(f.tsrc) \o U16(f.tdst) \o <<1, 2, 3, 4, 5, 6, 7, 8, (5 + Len(op) \div 4) * 16, 24>> \o U16(1000)
+      c  == Csum(Pseudo(f, 20 + Len(op) + Len(pl)) \o h1 \o <<0, 0, 0, 0>> \o op \o pl)
+  IN h1 \o U16(c) \o <<0, 0>> \o op \o pl
 UdpBytes(f) ==
   LET pl == Pay[f.pl]
       h1 == U16(f.tsrc) \o U16(f.tdst) \o U16(8 + Len(pl))
@@ -159,9 +181,13 @@ L4Bytes(f) == IF f.frag # 0 THEN Pay[f.pl]
                      [] f.proto = "icmp" -> IcmpBytes(f)
                      [] OTHER            -> Pay[f.pl]
 FragWord(f) == CASE f.frag = 0 -> <<64, 0>> [] f.frag = 1 -> <<32, 0>> [] OTHER -> <<0, 185>>
+\* version 4, IHL counts the options; total length covers header, options and payload;
+\* the header checksum covers the options
 IpHdr(f) ==
-  LET h1 == <<69, f.tos>> \o U16(20 + L4Len(f)) \o <<18, 52>> \o FragWord(f) \o <<64, ProtoNum(f)>>
-      ad == IpB[f.nsrc] \o IpB[f.ndst]
+  LET op == OptBytes(IpOpt, f.iopt)
+      h1 == <<64 + IpHdrLen(f) \div 4, f.tos>> \o U16(IpHdrLen(f) + L4Len(f)) \o <<18, 52>> \o FragWord(f)
+            \o <<64, ProtoNum(f)>>
+      ad == IpB[f.nsrc] \o IpB[f.ndst] \o op
   IN h1 \o U16(Csum(h1 \o <<0, 0>> \o ad)) \o ad
 ArpBytes == <<0, 1, 8, 0, 6, 4, 0, 1>> \o MacB.mb \o IpB.ia \o <<0, 0, 0, 0, 0, 0>> \o IpB.ib
 BpduBytes == <<66, 66, 3>> \o [i \in 1..35 |-> i - 1]
@@ -180,10 +206,14 @@ EncOK(f) ==
   IN /\ Len(b) = FrameLen(f)
      /\ \A i \in DOMAIN b : b[i] \in 0..255
      /\ (f.et = "ip" =>
-           /\ Verifies(SubSeq(l3, 1, 20))                               \* IPv4 header checksum
+           LET hl == (l3[1] % 16) * 4                                   \* header length from the IHL field
+               l4 == SubSeq(l3, hl + 1, Len(l3)) IN
+           /\ l3[1] \div 16 = 4 /\ hl = IpHdrLen(f) /\ hl \in 20..60
+           /\ Verifies(SubSeq(l3, 1, hl))                               \* IPv4 header checksum (incl. options)
            /\ l3[3] * 256 + l3[4] = Len(l3)                             \* total length
-           /\ (f.frag = 0 /\ f.proto \in {"tcp", "udp"} =>
-                 Verifies(Pseudo(f, Len(l3) - 20) \o SubSeq(l3, 21, Len(l3))))
-           /\ (f.frag = 0 /\ f.proto = "udp" => l3[25] * 256 + l3[26] = Len(l3) - 20)
-           /\ (f.frag = 0 /\ f.proto = "icmp" => Verifies(SubSeq(l3, 21, Len(l3)))))
+           /\ (f.frag = 0 /\ f.proto \in {"tcp", "udp"} => Verifies(Pseudo(f, Len(l4)) \o l4))
+           /\ (f.frag = 0 /\ f.proto = "udp" => l4[5] * 256 + l4[6] = Len(l4))
+           /\ (f.frag = 0 /\ f.proto = "tcp" =>                         \* data offset covers the options
+                 (l4[13] \div 16) * 4 = 20 + OptLen(TcpOpt, f.topt) /\ (l4[13] \div 16) * 4 <= Len(l4))
+           /\ (f.frag = 0 /\ f.proto = "icmp" => Verifies(l4)))
 =============================================================================
